@@ -65,8 +65,15 @@ theorem leafDone_measure (s : St) (a : Bool) (k : Nat) (o : Outcome) :
   have := leafDone_weight s a k o
   simp only [St.measure, leafDone_frames]; omega
 
+@[simp] theorem signal_frames (s : St) (o : Outcome) : (signal s o).frames = s.frames := by
+  unfold signal; simp only []; split <;> split <;> rfl
+
+@[simp] theorem signal_ctl (s : St) (o : Outcome) : (signal s o).ctl = .finished := by
+  unfold signal; rfl
+
 theorem rootDone_measure (s : St) (o : Outcome) : (rootDone s o).measure = 3 * framesMeasure s.frames := by
-  unfold rootDone; split <;> simp [St.measure, emit, Ctl.weight]
+  unfold rootDone; simp only []
+  split <;> split <;> simp [St.measure, Ctl.weight]
 
 theorem step_measure {s : St} (h : s.halted = false) : (step specs s).measure < s.measure := by
   unfold step
@@ -86,6 +93,20 @@ theorem step_measure {s : St} (h : s.halted = false) : (step specs s).measure < 
         simp [Frame.measure, hk, progSize, Stmt.size]; omega
       rw [hfm]
       split <;> simp [St.measure, framesMeasure, Frame.measure, Ctl.weight, hc] <;> omega
+    · rename_i k hk
+      have hfm : fr.measure = progSize k + fr.cleanups.length + 3 := by
+        simp [Frame.measure, hk, progSize, Stmt.size]; omega
+      rw [hfm]
+      split <;> simp [St.measure, framesMeasure, Frame.measure, Ctl.weight, hc] <;> omega
+    · rename_i i t k hk
+      have hfm : fr.measure = progSize k + fr.cleanups.length + 3 := by
+        simp [Frame.measure, hk, progSize, Stmt.size]; omega
+      rw [hfm]
+      simp only []
+      split
+      · refine Nat.lt_of_le_of_lt (leafDone_measure _ _ _ _) ?_
+        simp [emit, framesMeasure, Frame.measure]; omega
+      · simp [emit, St.measure, framesMeasure, Frame.measure, Ctl.weight]; omega
     · rename_i a l k hk
       have hfm : fr.measure = progSize k + fr.cleanups.length + 4 := by
         simp [Frame.measure, hk, progSize, Stmt.size]; omega
